@@ -30,3 +30,7 @@ GENERATORS.append(_extract_drivers.gen_cfg_drivers)
 from . import refs_c02 as _refs_c02   # noqa: E402
 GENERATORS.append(_refs_c02.generate)
 GENERATORS.append(_extract_drivers.gen_refs_nonlinear_solve)
+
+# C01: abstract syntax of EquationSolver.trust_region_minimize / is_converged / is_on_boundary / nonlinear_equation_solve (IR of model/M_C01_CFG.v)
+from . import extract_tr as _extract_tr   # noqa: E402
+GENERATORS.append(_extract_tr.gen_cfg_tr)
